@@ -22,7 +22,9 @@ package serverinterceptors
 //@   let viaCtx = calls(Err) == 1
 //@   ensures [deadline] viaCtx && ret(Err) == context.DeadlineExceeded ==> result0 == nil && calls(status.Error, 4, _) == 1 && result1 == ret(status.Error)
 //@   ensures [canceled] viaCtx && ret(Err) == context.Canceled ==> result0 == nil && calls(status.Error, 1, _) == 1 && result1 == ret(status.Error)
-//@   ensures [handler-result-discarded] viaCtx ==> result0 == nil && result1 != nil || ret(Err) == nil || true
+// the deadline arm answers without waiting for the handler: it never takes the lock the handler goroutine holds
+// while it runs (taking it would delay the timeout answer until the handler finishes)
+//@   ensures [deadline-arm-does-not-wait-for-handler] viaCtx ==> calls(on("lock", lock)) == 0 && result0 == nil
 //@   ensures [finished-first] !viaCtx ==> result0 == resp && result1 == err
 //@   ensures [one-handler-goroutine] calls("go UnaryTimeoutInterceptor$1$1") == 1 && calls(cancel) == 1
 //@ func UnaryTimeoutInterceptor$1$1
